@@ -88,7 +88,7 @@ def gen_cases(tier, seed):
     if tier == "quick":
         geoms = [None]
     else:
-        geoms = ["coincident", "collinear", "general", None, None, None]
+        geoms = ["coincident", "collinear", "general", "near", "far", None, None, None, None, None]
     for ls in sel:
         for gi, geom in enumerate(geoms):
             rng = bases.rng_for("C04", seed, tier, ls, gi)
@@ -113,7 +113,7 @@ def gen_cases(tier, seed):
             cases.append({"kind": "kernel", "shells": shells, "classes": [gcls, "ls:%d%d%d%d" % ls, "L:%d" % L], "cost": cost * (1 + L) ** 2 / 50})
     # hostile family: every shell spans the whole admissible exponent range (both orientations amplify)
     heavy = [t for t in tuples if sum(t) >= 8]
-    nh = 24 if tier == "quick" else 200
+    nh = 24 if tier == "quick" else 600
     rngh = bases.rng_for("C04", seed, tier, "span")
     for i in range(nh):
         ls = heavy[int(rngh.integers(len(heavy)))]
@@ -153,7 +153,7 @@ def gen_cases(tier, seed):
                                 ("(td|td)", [t[0], d[0], t[1], d[1]]), ("(td|dt)", [t[0], d[0], d[1], t[1]])):
             cases.append({"kind": "kernel", "shells": [dict(s) for s in order], "classes": ["ill:" + name, "arr:" + arr_name], "cost": 400})
     # whole-basis calls
-    nw = 16 if tier == "quick" else 96
+    nw = 16 if tier == "quick" else 240
     for i in range(nw):
         rng = bases.rng_for("C04", seed, tier, "whole", i)
         nsh = 2 + i % 3
